@@ -234,6 +234,43 @@ class Session:
         self.nops += 1
         return raw if res.startswith('ok:') else None
 
+    def copy_vars(self, src, dst):
+        """`dd._copy.copy_vars(source, target)` on the implementation; for the model the
+        loop it stands for: `target.add_var(var, level)` for the variables of the source in
+        the iteration order of its `vars` dict, up to the first one that is refused.
+        Returns True when the call returned normally.  The whole state of the target is
+        compared afterwards."""
+        import dd._copy as _copy
+        mg = self.impl.amgr if isinstance(src, str) else self.impl.mgr
+        tg = self.impl.amgr if isinstance(dst, str) else self.impl.mgr
+        sb, tb = mg[src], tg[dst]
+        pairs = [(int(v[1:]), l) for v, l in sb.vars.items()]
+        before = dict(tb.vars)
+        try:
+            _copy.copy_vars(sb, tb)
+            ok = True
+        except Exception as e:  # noqa: B902
+            ok = False
+            self.impl.last_exc = repr(e)
+        # the model replays the loop: accepted declarations, then (if the call raised) the
+        # refused one
+        n_ok = 0
+        for v, l in pairs:
+            name = f'v{v}'
+            if name in before and before[name] == l:
+                n_ok += 1            # idempotent
+            elif name not in before and tb.vars.get(name) == l:
+                n_ok += 1
+            else:
+                break
+        upto = n_ok if ok else n_ok + 1
+        for v, l in pairs[:upto]:
+            self.lines.append(fmt_line(dst, 'add_var', (v, l)))
+            self.expect.append(None)
+            self.nops += 1
+        self.digest(dst)
+        return ok
+
     def parse(self, spellings):
         """compare the syntax trees only (no manager involved)"""
         sp = _impl.Spellings(spellings)
